@@ -1,20 +1,21 @@
 ----------------------------- MODULE MinOutTrace -----------------------------
 (***************************************************************************)
 (* Trace validation of seq_to_min / bin_sequences runs (C10).              *)
-(*   reset{mode,w,m,recs,nw}      mode "s2m" | "m2s", window (0 = whole    *)
-(*                                record), minimiser size, record bytes    *)
+(*   reset{mode,w,m,recs,ids,nw}  mode "s2m" | "m2s", window (0 = whole    *)
+(*                                record), minimiser size, record bytes,   *)
+(*                                id number of each record (not unique)    *)
 (*   min.* / seq.take*            hook events, t = worker (task) number    *)
 (*   s2mline{rec,runs}            decoded line of the s2m output: record   *)
-(*                                ordinal, <<m-mer digits, start, end>>..  *)
+(*                                id, <<m-mer digits, start, end>>..       *)
 (*   m2sline{v,items}             decoded line of the m2s output: m-mer    *)
-(*                                digits, <<record ordinal, start, end>>.. *)
+(*                                digits, <<record id, start, end>>..      *)
 (*   outlines{n}                  number of lines in the output file       *)
 (* The runs of every record are computed by the specification (MinOps).    *)
 (***************************************************************************)
 EXTENDS MinOut, MinOps, TraceLib
 VARIABLES started, seen, silent, closed
 tvars == <<ovars, l, started, seen, silent, closed>>
-NoCfg == [mode |-> "s2m", runs |-> <<>>, nw |-> 1]
+NoCfg == [mode |-> "s2m", runs |-> <<>>, nw |-> 1, ids |-> <<>>]
 TInit == TrackInit /\ l = 1 /\ started = FALSE /\ seen = {} /\ silent = FALSE /\ closed = TRUE /\ MInitCfg(NoCfg)
 A(i) == Ev.a[i]
 W == Ev.t
@@ -22,10 +23,10 @@ Skip == Consume /\ UNCHANGED <<ovars, started, seen, silent, closed>>
 Keep == UNCHANGED <<started, seen, silent, closed>>
 
 WinFor(b, w) == IF w = 0 THEN Len(b) ELSE w
-CfgOf(e) == [mode |-> e.mode, nw |-> e.nw,
+CfgOf(e) == [mode |-> e.mode, nw |-> e.nw, ids |-> e.ids,
              runs |-> [i \in 1..Len(e.recs) |-> RunsWM(Classes(e.recs[i]), WinFor(e.recs[i], e.w), e.m)]]
 
-TReset == /\ Is("reset") /\ (~started \/ (Done /\ closed)) /\ Ev.nw >= 1
+TReset == /\ Is("reset") /\ (~started \/ (Done /\ closed)) /\ Ev.nw >= 1 /\ Len(Ev.ids) = Len(Ev.recs)
           /\ (\E c \in {CfgOf(Ev)} : MReset(c))       \* (bound once: TLC re-evaluates plain operator arguments in actions)
           /\ started' = TRUE /\ seen' = {} /\ silent' = (Ev.run = "cli") /\ closed' = FALSE /\ Consume
 TStart == Is("min.worker_start") /\ started /\ W \in Workers /\ pc[W] = "take" /\ Skip
@@ -37,11 +38,13 @@ TWrite == Is("min.before_write") /\ W \in Workers /\ held[W] = A(1) /\ WriteLine
 TPush == Is("min.before_push") /\ W \in Workers /\ held[W] = A(1) /\ PushRec(W) /\ Consume /\ Keep
 TExit == Is("min.worker_exit") /\ W \in Workers /\ pc[W] = "exit" /\ Skip
 
-\* s2m: the line of record `rec` lists exactly that record's runs, in order; each record once
+\* s2m: a line with id `rec` lists exactly the runs, in order, of a record with that id which has no line yet
+\* (records sharing id and runs are interchangeable, so the choice is fixed)
 TS2m == /\ Is("s2mline") /\ Done /\ mcfg.mode = "s2m"
-        /\ Ev.rec \in 0..(N - 1) /\ Ev.rec \notin seen
-        /\ Ev.runs = mcfg.runs[Ev.rec + 1]
-        /\ seen' = seen \cup {Ev.rec} /\ Consume /\ UNCHANGED <<ovars, started, silent, closed>>
+        /\ LET c == {i \in 0..(N - 1) : i \notin seen /\ IdOf(i) = Ev.rec /\ Ev.runs = mcfg.runs[i + 1]} IN
+           /\ c # {}
+           /\ seen' = seen \cup {CHOOSE i \in c : TRUE}
+        /\ Consume /\ UNCHANGED <<ovars, started, silent, closed>>
 \* m2s: the line of minimiser v lists exactly what the model's table holds for v, as a multiset; each key once
 SameBagSeq(p, q) == Len(p) = Len(q) /\ \A i \in 1..Len(p) : CountIn(p, p[i]) = CountIn(q, p[i])
 TM2s == /\ Is("m2sline") /\ Done /\ mcfg.mode = "m2s"
